@@ -18,12 +18,15 @@ EXTRACT ("C05", q_mul, "Quat.mul", { IN (Quat, a); IN (Quat, b); c.out (a * b); 
 EXTRACT ("C05", q_mulAssign, "Quat.mulAssign", { IN (Quat, a); IN (Quat, b); a *= b; c.out (a); })
 EXTRACT ("C05", q_euclid, "Quat.euclideanInnerProduct", { IN (Quat, a); IN (Quat, b); c.outS (a ^ b); })
 // matrix x matrix, all spellings
+// extra TV inputs from the small-integer lattice {-2..2} with a random share of zeros: every one of the 16 zero-skipping leaves of
+// Matrix44::determinant is reached by TV itself (obliged by c05.py through chk.tv_paths)
+#define DET_OPTS symns::Opts ().lattice (256)
 #define MATMUL(Ty, id, L)                                                                            \
     EXTRACT ("C05", id##_mul, L ".mul", { IN (Ty, a); IN (Ty, b); c.out (a * b); })                   \
     EXTRACT ("C05", id##_mulAssign, L ".mulAssign", { IN (Ty, a); IN (Ty, b); a *= b; c.out (a); })   \
     EXTRACT ("C05", id##_transpose, L ".transpose", { IN (Ty, a); a.transpose (); c.out (a); })       \
     EXTRACT ("C05", id##_transposed, L ".transposed", { IN (Ty, a); c.out (a.transposed ()); })       \
-    EXTRACT ("C05", id##_det, L ".determinant", { IN (Ty, a); c.outS (a.determinant ()); })           \
+    EXTRACT_OPT ("C05", id##_det, L ".determinant", DET_OPTS, { IN (Ty, a); c.outS (a.determinant ()); })  \
     EXTRACT ("C05", id##_trace, L ".trace", { IN (Ty, a); c.outS (a.trace ()); })
 MATMUL (Matrix22, m22, "M22")
 MATMUL (Matrix33, m33, "M33")
